@@ -148,6 +148,18 @@ func build(t tcase) (w *lg.World, spec *lg.TxSpec, written []*big.Int) {
 		}
 		spec.Outputs = []lg.Output{a, b}
 		written = []*big.Int{t.q, partner}
+	case "pair-dup":
+		// as "pair", but the out-of-range quantity hides behind a duplicate
+		// asset-name key {A: 1, A: q} (decoders that tolerate duplicates keep the
+		// last entry, possibly on a different code path than the strict one)
+		partner := new(big.Int).Sub(one, t.q)
+		tokIn("c08-token-1", one)
+		a, b := out(w, 0, tok(one, formNatural), tok(t.q, t.form)), out(w, 5_000_000, tok(partner, t.form))
+		if t.pos == 1 {
+			a.Assets, b.Assets = b.Assets, a.Assets
+		}
+		spec.Outputs = []lg.Output{a, b}
+		written = []*big.Int{t.q, partner}
 	case "oversized":
 		// 2^64 (2^65) as the sum of two (four) in-range inputs of 2^63
 		n := new(big.Int).Div(t.q, pow2(63)).Int64()
@@ -216,6 +228,9 @@ func cases(c *core.Ctx) []tcase {
 					neg(pow2(63)), neg(new(big.Int).Add(pow2(63), big.NewInt(1))), neg(new(big.Int).Sub(pow2(64), big.NewInt(1))),
 					neg(pow2(64)), neg(new(big.Int).Add(pow2(64), big.NewInt(1))), neg(pow2(70))} {
 					cs = append(cs, tcase{sh, "pair", q, f, pos})
+				}
+				for _, q := range []*big.Int{big.NewInt(-1), neg(new(big.Int).Add(pow2(63), big.NewInt(1))), neg(pow2(64))} {
+					cs = append(cs, tcase{sh, "pair-dup", q, f, pos})
 				}
 				for _, q := range []*big.Int{pow2(64), pow2(65)} {
 					cs = append(cs, tcase{sh, "oversized", q, f, pos})
